@@ -36,7 +36,7 @@ if ! build "$EXE"; then
 fi
 export VERIF_BIN="$EXE"
 export VERIF_REPO_PATH="$REPO"
-if [ -n "$VERIF_RACE" ] || { [ "$TIER" = thorough ] && { [ "$ID" = C01 ] || [ "$ID" = C03 ] || [ "$ID" = C18 ]; }; }; then
+if [ -n "$VERIF_RACE" ] || { [ "$TIER" = thorough ] && { [ "$ID" = C01 ] || [ "$ID" = C03 ] || [ "$ID" = C08 ] || [ "$ID" = C18 ]; }; }; then
   build "$EXE-race" -race && export VERIF_BIN_RACE="$EXE-race"
 fi
 
